@@ -377,3 +377,13 @@ PROPS['C19']['outside'] = list(PROPS['C19'].get('outside', [])) + ['const_defaul
 # C01: the chunk / unchunk views are the users of the layout guarantee (fourth-round mutants filed under C01 lived there)
 PROPS['C01']['mir']['quick'].append(mrun(CHUNKS, nmax=3))
 PROPS['C01']['bounds'] += ' M also: chunks_from_slice(_mut) / slice_from_chunks(_mut) for all N and L (the views that rely on size_of::<GenericArray<T, N>>() == N * size_of::<T>()).'
+
+# re-boxing heap sources through engine M (all N, source length and capacity symbolic)
+HEAP = ['heap.try_from_vec', 'heap.try_from_boxed_slice']
+for pid in ('C15', 'C16', 'C03'):
+    PROPS[pid].setdefault('mir', {'quick': []})
+    PROPS[pid]['mir']['quick'].append(mrun(HEAP, nmax=3))
+    if 'thorough' in PROPS[pid]['mir']:
+        PROPS[pid]['mir']['thorough'].append(mrun(HEAP, nmax=3))
+    PROPS[pid]['bounds'] += ' M (heap.*): try_from_vec / try_from_boxed_slice for ALL N, source lengths L and capacities CAP >= L: Ok iff L == N, the same block re-boxed under the layout of N elements (a buffer with spare capacity is shrunk first; a pointer taken before the shrink is stale), a refused source dropped once and freed.'
+PROPS['C15']['technique'] = PROPS['C15'].get('technique', 'bounded model checking with Kani/CBMC') + ' + symbolic execution of rustc MIR with z3 for the re-boxing conversions (Vec / Box<[T]> by contract; all N, L, CAP)'
